@@ -116,4 +116,46 @@ chain `calls` (outermost first) and then fails at `fault` in the innermost funct
 def predict (calls : List Call) (fault : Nat) (faultInTry : Bool := false) : Outcome :=
   unwind true (((VM.run 0).callAll calls).at fault faultInTry)
 
+/-! ### Errors that cross native re-entries (callbacks run by core-library functions)
+
+A core-library function that runs a script function (`fold`, `any`, … eagerly; `each`, `keep`, …
+lazily when their iterator is consumed) enters the interpreter again through
+`call_and_run_function`: the callback's frame gets an execution barrier, so the unwinding of that
+entry stops there and the error is handed to the native caller with the trace collected so far.
+`call_and_run_function` pops the barrier frame; a lazy adaptor then appends the frame it recorded
+when it was *created* (`error.extend_trace(self.error_frame)`, "highlight the adaptor itself");
+the native function returns the error to the interpreter loop that executed the native call
+instruction, whose `pop_call_stack_on_error` appends its own `instruction_frame()` (the native call)
+and goes on unwinding that entry. Frames below a barrier never matter (`unwind_frames`), so every
+entry is modelled as a stack of its own with a barrier at the bottom. -/
+
+/-- one interpreter entry: the script calls made inside it (outermost first), the ip of the
+instruction that fails in its innermost function (the fault itself for the innermost entry, the
+native call instruction for the others) and, if the entry nested inside this one was made by a lazy
+adaptor, the ip at which that adaptor was created (an instruction of the same function) -/
+structure Seg where
+  calls : List Call
+  failIp : Nat
+  adaptorIp : Option Nat := none
+  failInTry : Bool := false
+  deriving Repr, DecidableEq, Inhabited
+
+/-- entries innermost first; `tr` = trace handed over by the entry nested inside -/
+def predictSegs : List Seg → List IFrame → Outcome
+  | [], tr => .uncaught tr
+  | s :: rest, tr =>
+    let vm := ((VM.run 0).callAll s.calls).at s.failIp s.failInTry
+    let adaptor : List IFrame := match s.adaptorIp with
+      | some a => [⟨vm.chunk, a⟩]
+      | none => []
+    match unwindGo true vm.stack (tr ++ adaptor ++ [vm.instructionFrame]) with
+    | .caught => .caught
+    | .uncaught t => predictSegs rest t
+
+/-- the frames one entry contributes when nothing is caught -/
+def segFrames (s : Seg) : List IFrame :=
+  (match s.adaptorIp with
+    | some a => [⟨lastChunk 0 s.calls, a⟩]
+    | none => []) ++ ⟨lastChunk 0 s.calls, s.failIp⟩ :: (callSites 0 s.calls).reverse
+
 end KotoVerif.Trace
